@@ -3318,97 +3318,99 @@ func sortBeaconByType(b beacon.Beacon, bc BeaconType, order BeaconOrder) error {
 }
 
 func (s *swamp) addToKeyBeacon(treasureInterface treasure.Treasure) {
-	// check if the index is already built
-	// if not, then we don't need to add the treasures to the index
-	if !s.keyBeaconASC.IsInitialized() {
-		return
+	// Only an index that is already built is maintained; one that is not built yet picks the
+	// treasure up when it is built. The two indexes of the pair are built one after the other,
+	// so each is tested on its own: Add marks a beacon initialized, and adding to a descending
+	// index that is not built yet would make buildBeacon skip its cold build for good.
+	if s.keyBeaconASC.IsInitialized() {
+		s.keyBeaconASC.Add(treasureInterface)
+		if err := s.keyBeaconASC.SortByKeyAsc(); err != nil {
+			slog.Error("failed to sort keyBeaconASC", "error", err)
+		}
 	}
-	s.keyBeaconASC.Add(treasureInterface)
-	err := s.keyBeaconASC.SortByKeyAsc()
-	if err != nil {
-		slog.Error("failed to sort keyBeaconASC", "error", err)
-	}
-	s.keyBeaconDESC.Add(treasureInterface)
-	err = s.keyBeaconDESC.SortByKeyDesc()
-	if err != nil {
-		slog.Error("failed to sort keyBeaconDESC", "error", err)
+	if s.keyBeaconDESC.IsInitialized() {
+		s.keyBeaconDESC.Add(treasureInterface)
+		if err := s.keyBeaconDESC.SortByKeyDesc(); err != nil {
+			slog.Error("failed to sort keyBeaconDESC", "error", err)
+		}
 	}
 }
 
 // addToCreationTimeBeacon - add the treasures to the creationTimeBeaconASC and creationTimeBeaconDESC slices if the treasure
 // is not already in the slices
 func (s *swamp) addToCreationTimeBeacon(treasureInterface treasure.Treasure) {
-	// check if the index is already built
-	// if not, then we don't need to add the treasures to the index
-	if !s.creationTimeBeaconASC.IsInitialized() {
-		return
+	// Only an index that is already built is maintained; one that is not built yet picks the
+	// treasure up when it is built. The two indexes of the pair are built one after the other,
+	// so each is tested on its own: Add marks a beacon initialized, and adding to a descending
+	// index that is not built yet would make buildBeacon skip its cold build for good.
+	if s.creationTimeBeaconASC.IsInitialized() {
+		s.creationTimeBeaconASC.Add(treasureInterface)
+		if err := s.creationTimeBeaconASC.SortByCreationTimeAsc(); err != nil {
+			slog.Error("failed to sort creationTimeBeaconASC", "error", err)
+		}
 	}
-	s.creationTimeBeaconASC.Add(treasureInterface)
-	err := s.creationTimeBeaconASC.SortByCreationTimeAsc()
-	if err != nil {
-		slog.Error("failed to sort creationTimeBeaconASC", "error", err)
-	}
-	s.creationTimeBeaconDESC.Add(treasureInterface)
-	err = s.creationTimeBeaconDESC.SortByCreationTimeDesc()
-	if err != nil {
-		slog.Error("failed to sort creationTimeBeaconDESC", "error", err)
+	if s.creationTimeBeaconDESC.IsInitialized() {
+		s.creationTimeBeaconDESC.Add(treasureInterface)
+		if err := s.creationTimeBeaconDESC.SortByCreationTimeDesc(); err != nil {
+			slog.Error("failed to sort creationTimeBeaconDESC", "error", err)
+		}
 	}
 }
 func (s *swamp) addToUpdateTimeBeacon(treasureInterface treasure.Treasure) {
-	// check if the index is already built
-	// if not, then we don't need to add the treasures to the index
-	if !s.updateTimeBeaconASC.IsInitialized() {
-		return
+	// Only an index that is already built is maintained; one that is not built yet picks the
+	// treasure up when it is built. The two indexes of the pair are built one after the other,
+	// so each is tested on its own: Add marks a beacon initialized, and adding to a descending
+	// index that is not built yet would make buildBeacon skip its cold build for good.
+	if s.updateTimeBeaconASC.IsInitialized() {
+		s.updateTimeBeaconASC.Add(treasureInterface)
+		if err := s.updateTimeBeaconASC.SortByUpdateTimeAsc(); err != nil {
+			slog.Error("failed to sort updateTimeBeaconASC", "error", err)
+		}
 	}
-	s.updateTimeBeaconASC.Add(treasureInterface)
-	err := s.updateTimeBeaconASC.SortByUpdateTimeAsc()
-	if err != nil {
-		slog.Error("failed to sort updateTimeBeaconASC", "error", err)
+	if s.updateTimeBeaconDESC.IsInitialized() {
+		s.updateTimeBeaconDESC.Add(treasureInterface)
+		if err := s.updateTimeBeaconDESC.SortByUpdateTimeDesc(); err != nil {
+			slog.Error("failed to sort updateTimeBeaconDESC", "error", err)
+		}
 	}
-	s.updateTimeBeaconDESC.Add(treasureInterface)
-	err = s.updateTimeBeaconDESC.SortByUpdateTimeDesc()
-	if err != nil {
-		slog.Error("failed to sort updateTimeBeaconDESC", "error", err)
-	}
-
 }
 func (s *swamp) addToExpirationTimeBeacon(treasureInterface treasure.Treasure) {
-	// check if the index is already built
-	// if not, then we don't need to add the treasures to the index
-	if !s.expirationTimeBeaconASC.IsInitialized() {
-		return
+	// Only an index that is already built is maintained; one that is not built yet picks the
+	// treasure up when it is built. The two indexes of the pair are built one after the other,
+	// so each is tested on its own: Add marks a beacon initialized, and adding to a descending
+	// index that is not built yet would make buildBeacon skip its cold build for good.
+	if s.expirationTimeBeaconASC.IsInitialized() {
+		s.expirationTimeBeaconASC.Add(treasureInterface)
+		if err := s.expirationTimeBeaconASC.SortByExpirationTimeAsc(); err != nil {
+			slog.Error("failed to sort expirationTimeBeaconASC", "error", err)
+		}
 	}
-	s.expirationTimeBeaconASC.Add(treasureInterface)
-	err := s.expirationTimeBeaconASC.SortByExpirationTimeAsc()
-	if err != nil {
-		slog.Error("failed to sort expirationTimeBeaconASC", "error", err)
+	if s.expirationTimeBeaconDESC.IsInitialized() {
+		s.expirationTimeBeaconDESC.Add(treasureInterface)
+		if err := s.expirationTimeBeaconDESC.SortByExpirationTimeDesc(); err != nil {
+			slog.Error("failed to sort expirationTimeBeaconDESC", "error", err)
+		}
 	}
-
-	s.expirationTimeBeaconDESC.Add(treasureInterface)
-	err = s.expirationTimeBeaconDESC.SortByExpirationTimeDesc()
-	if err != nil {
-		slog.Error("failed to sort expirationTimeBeaconDESC", "error", err)
-	}
-
 }
 func (s *swamp) addToValueBeacon(treasureInterface treasure.Treasure) {
-	// check if the index is already built
-	// if not, then we don't need to add the treasures to the index
-	if !s.valueBeaconASC.IsInitialized() {
-		return
-	}
+	// Only an index that is already built is maintained; one that is not built yet picks the
+	// treasure up when it is built. The two indexes of the pair are built one after the other,
+	// so each is tested on its own: Add marks a beacon initialized, and adding to a descending
+	// index that is not built yet would make buildBeacon skip its cold build for good.
 	// re-sort with the sorter of the value type the beacons were built for
 	// (see buildBeacon), not unconditionally as int64
 	bc := BeaconType(atomic.LoadInt32(&s.valueBeaconType))
-	s.valueBeaconASC.Add(treasureInterface)
-	err := sortBeaconByType(s.valueBeaconASC, bc, IndexOrderAsc)
-	if err != nil {
-		slog.Error("failed to sort valueBeaconASC", "error", err)
+	if s.valueBeaconASC.IsInitialized() {
+		s.valueBeaconASC.Add(treasureInterface)
+		if err := sortBeaconByType(s.valueBeaconASC, bc, IndexOrderAsc); err != nil {
+			slog.Error("failed to sort valueBeaconASC", "error", err)
+		}
 	}
-	s.valueBeaconDESC.Add(treasureInterface)
-	err = sortBeaconByType(s.valueBeaconDESC, bc, IndexOrderDesc)
-	if err != nil {
-		slog.Error("failed to sort valueBeaconDESC", "error", err)
+	if s.valueBeaconDESC.IsInitialized() {
+		s.valueBeaconDESC.Add(treasureInterface)
+		if err := sortBeaconByType(s.valueBeaconDESC, bc, IndexOrderDesc); err != nil {
+			slog.Error("failed to sort valueBeaconDESC", "error", err)
+		}
 	}
 }
 
